@@ -355,7 +355,12 @@ def main_func():
     except BenchmarkThreadExceptions as exceptions:
         ui = UI()
         for ex in exceptions.exceptions:
-            ui.error(escape_braces(str(ex)) + "\n")
+            if isinstance(ex, UIError):
+                ui.error("\n" + ex.message)
+            else:
+                ui.error(escape_braces(str(ex)) + "\n")
+        if all(isinstance(ex, UIError) for ex in exceptions.exceptions):
+            return EXIT_CODE_UI_ERROR
         return EXIT_CODE_EXCEPTION
 
 
